@@ -26,6 +26,8 @@ def run(ctx):
                 for k in ("stopval", "ftol_rel", "xtol_rel", "xtol_abs", "maxtime", "clockq", "clock0"):
                     base.pop(k, None)
                 base["obj"] = rng.choice([0, 1, 3])
+                if any(abs(v) > 1e300 for v in base["lb"] + base["ub"]):
+                    base.pop("max", None)      # maximizing a bowl over an unbounded box has no solution (values overflow to Inf/NaN)
                 if rep >= 1 and rep % 2 == 1:
                     # start in the middle of the box, optimum on a chosen side of every coordinate (both probe directions of the
                     # initial interpolation set are then ranked in every order over the repetitions)
